@@ -132,7 +132,7 @@ def run_slice(case, drv) -> Outcome:
         viol = viol or {'signature': 'slice:row-sum', 'what': f'{cfg}: projection of a constant volume leaves [0,1]: min {float(s.min())} max {float(s.max())}'}
     if case['rotation'] == 'identity' and abs(case['shift']) + (w_impl or 0) + 1 < shape[0] / 2 - 0.5:
         inner = s[..., 0, :, :][..., (mx - shape[1]) // 2 + 1:(mx + shape[1]) // 2 - 1, (mx - shape[2]) // 2 + 1:(mx + shape[2]) // 2 - 1]
-        if inner.numel() and float((inner - 1).abs().max()) > 1e-4:
+        if inner.numel() and float((inner - 1).abs().nan_to_num(nan=float('inf')).max()) > 1e-4:
             viol = viol or {'signature': 'slice:constant', 'what': f'{cfg}: constant volume does not give a constant slice inside the volume (deviation {float((inner - 1).abs().max()):.2e})'}
         # dense row of the centre pixel follows the profile along z
         e = torch.zeros(1, 1, mx, mx)
